@@ -7,6 +7,7 @@ import pandas as pd
 import scipy.sparse as sp
 import warnings
 import time
+import copy
 import scipy.optimize as opt
 from numbers import Real
 from scipy.sparse import csr_matrix, coo_matrix, lil_matrix
@@ -3149,7 +3150,9 @@ class PWConstr:
         pieces = []
         for piece in self.pieces:
             if isinstance(piece, (DecLinConstr, DecBounds, RoConstr)):
-                pieces.append(piece.forall(*args))
+                # a copy: the pieces of the constraint this is called on
+                # keep the set they have
+                pieces.append(copy.copy(piece).forall(*args))
             else:
                 pieces.append(piece)
 
@@ -3424,6 +3427,12 @@ class RoConstr:
             sup_model.st(item)
 
         self.support = sup_model.do_math(primal=False, obj=False)
+
+        # the constraint may already be part of a formulated model
+        top = self.dec_model.top
+        if top is not None:
+            top.pupdate = True
+            top.dupdate = True
 
         return self
 
@@ -4999,6 +5008,9 @@ class DecLinConstr(LinConstr):
                 raise ValueError('Models mismatch.')
 
         self.ambset = ambset
+        if self.model.top is not None:
+            self.model.top.pupdate = True
+            self.model.top.dupdate = True
 
         return self
 
@@ -5084,13 +5096,17 @@ class DecRoConstr(RoConstr):
                 if constr.model is not self.rand_model:
                     raise ValueError('Models mismatch.')
             self.ambset = suppset
-            return self
         else:
             if self.dec_model.top is not ambset.model:
                 raise ValueError('Models mismatch.')
 
             self.ambset = ambset
-            return self
+
+        if self.dec_model.top is not None:
+            self.dec_model.top.pupdate = True
+            self.dec_model.top.dupdate = True
+
+        return self
 
 
 class DecLMIConstr(LMIConstr):
